@@ -127,11 +127,12 @@ def assemble(unit, workdir, canary=False, canary_loops=False):
         all_units = load_units()
         parts = []
         for un in t["units"]:
+            un, _, only = un.partition("#")     # "U02.obj#objective_parts": one named slice of a unit that has several
             ou = all_units.get(un)
             if ou is None:
                 raise Infra(f"{unit['name']}: tiling names unknown unit {un}")
             for sl in ou.get("slices", []):
-                if sl["fn"] == t["fn"] and sl["path"] == t["path"]:
+                if sl["fn"] == t["fn"] and sl["path"] == t["path"] and not sl.get("within") and (not only or sl["name"] == only):
                     parts.append({"from": sl["from"], "to": sl["to"], "unit": un})
         tiling.append({"path": t["path"], "fn": t["fn"], "parts": parts, "other": t.get("other", [])})
     spec = {
